@@ -45,6 +45,7 @@ class Contract:
         self.props: List[str] = []   # properties this contract serves (for evidence)
         self.floor = 0
         self.opaque_locals = False
+        self.exc_ensures_: List[Tuple[str, str, Callable]] = []   # (exc class, label, f(post-state at the raise))
 
     # --- clause builders
     def requires(self, label: str, f: Callable) -> None: self.requires_.append((label, f))
@@ -56,6 +57,10 @@ class Contract:
         self.raises_.append((label or exc, exc, when, iff))
 
     def raises_never(self, *excs: str) -> None: self.never_.extend(excs)
+
+    def raises_ensures(self, exc: str, label: str, f: Callable) -> None:
+        """Exceptional postcondition: whenever `exc` (or a subclass) escapes, `f` holds of the state at the raise."""
+        self.exc_ensures_.append((exc, label, f))
 
     def modifies(self, *keys, refs: Optional[Callable] = None) -> None:
         self.modifies_declared = True
